@@ -277,7 +277,16 @@ def bfs(ctx, budget: int, config: str, depth: int, cap: int):
     return frontier
 
 
+def _det(case):
+    budget, config, hist = case
+    w, err = build(budget, config, hist)
+    return (key(w), err)
+
+
 def run(ctx):
+    ctx.determinism("history replay", _det, [(3, c, h) for c in CONFIGS for h in (
+        [("new",), ("flush",)], [("new",), ("create_keep", 1), ("cnot", 0, 1), ("flush",), ("measure", 0), ("flush",)],
+        [("recv_keep", 2), ("flush",), ("free", 1), ("flush",)], [("create_seq_post", 2), ("flush",)])])
     if ctx.tier == "quick":
         plan = {1: 5, 2: 4, 3: 4, 4: 3, 5: 3}
         cap = 12000
